@@ -111,7 +111,14 @@ class RealTable:
         self.sync_calls = []
         pred = _auto_fn(case["auto"])
         if case["auto"][0] != "none":
+            # several registered predicates mean "any of them": the case's predicate alone, before, or after a
+            # predicate that never matches
+            k = len(case["ents"]) % 3
+            if k == 1:
+                cs.register_auto_sync_callback(lambda p: False)
             cs.register_auto_sync_callback(lambda p: pred(p))
+            if k == 2:
+                cs.register_auto_sync_callback(lambda p: False)
         for i, r in enumerate(case["ents"]):
             rabs, labs = "/remote" + r["rel"], "/local" + r["rel"]
             otype = DIRECTORY if r["isdir"] else FILE
